@@ -62,6 +62,19 @@ pub trait MatrixStats<T: RealNumber>: BaseMatrix<T> {
             }
             mu /= div;
             *x_i = sum / div - mu.powi(2);
+            if *x_i < sum / div * T::from_f64(1e-3).unwrap() {
+                // the two terms nearly cancel (|mean| >> spread) and the one-pass formula has lost
+                // its significant digits: recompute from the centred values
+                let mut centred = T::zero();
+                for j in 0..m {
+                    let d = match axis {
+                        0 => self.get(j, i),
+                        _ => self.get(i, j),
+                    } - mu;
+                    centred += d * d;
+                }
+                *x_i = centred / div;
+            }
         }
 
         x
